@@ -93,6 +93,10 @@ Ys      == IF Thorough THEN { <<0,0,0>>, <<1,0,0>>, <<0,-2,1>>, <<1,1,3>> } ELSE
 Alphas  == IF Thorough THEN { 0, 1, -2 } ELSE { 1, -2 }
 HCell(h) == IF nOf(h) = 0 THEN "zero" ELSE IF h \in HNearPole THEN "nearpole" ELSE IF h \in HSmall THEN "small" ELSE IF h \in HNearPi THEN "nearpi"
             ELSE IF h[1] = 0 THEN "pi" ELSE IF h[1] < 0 THEN "beyondpi" ELSE "regular"
+(* SE(3) / SE_2(3) over the DCM and Euler parameterisations (user-built groups: the classes are generic over the SO(3)
+   representation) on a few half-angle quaternions of the coarse lattice *)
+HUser == { <<2,1,0,-1>>, <<-2,0,1,1>>, <<1,3,1,0>>, <<-1,1,0,3>> }
+RepsSE(h) == IF h \in HUser THEN {"quat", "mrp", "dcm", "euler"} ELSE {"quat", "mrp"}
 RepOK(rep, q) == (rep = "mrp" => MrpOk(q)) /\ (rep = "euler" => ~AtGimbalPole(q))
 
 RECURSIVE IPow(_, _)
@@ -115,10 +119,10 @@ NextE == UNCHANGED dummy /\
         \/ \E rep \in Reps3 : RepOK(rep, h) /\ RepOK(rep, QConj(h)) /\      \* exp(-x) is compared too
               tv' = [op |-> "exp_so3", rep |-> rep, h |-> h, cell |-> cell, exp |-> RM(QMat(h), QNorm(h))]
         (* SE(3)/SE_2(3), general rho: symbolic-mu expectation *)
-        \/ \E rep \in Reps2, rho \in Rhos : RepOK(rep, h) /\ cell # "nearpole" /\
+        \/ \E rep \in RepsSE(h), rho \in Rhos : RepOK(rep, h) /\ cell # "nearpole" /\
               tv' = [op |-> "exp_se3_gen", rep |-> rep, h |-> h, rho |-> rho, cell |-> cell, p |-> GenP(h, rho),
                      exp |-> RM(QMat(h), QNorm(h))]
-        \/ \E rep \in Reps2, r1 \in Rhos, r2 \in {<<0,-2,1>>, <<1,1,1>>} : RepOK(rep, h) /\ cell # "nearpole" /\
+        \/ \E rep \in RepsSE(h), r1 \in Rhos, r2 \in {<<0,-2,1>>, <<1,1,1>>} : RepOK(rep, h) /\ cell # "nearpole" /\
               tv' = [op |-> "exp_se23_gen", rep |-> rep, h |-> h, rho |-> r1, rho2 |-> r2, cell |-> cell,
                      p |-> GenP(h, r1), p2 |-> GenP(h, r2), exp |-> RM(QMat(h), QNorm(h))]
         (* screw form, scalar multiples s: rational expectation, any angle *)
@@ -160,11 +164,11 @@ NextE == UNCHANGED dummy /\
         \/ /\ h = <<1,0,0,0>>
            /\ tv' = [op |-> "log_so3", rep |-> "quat", h |-> <<-1,0,0,0>>, hp |-> <<1,0,0,0>>, cell |-> "zero"]
         \/ /\ (h[1] # 0 \/ nOf(h) = 0) /\ cell # "nearpole"
-           /\ \E rep \in Reps2, p \in Rhos : RepOK(rep, h) /\
+           /\ \E rep \in RepsSE(h), p \in Rhos : RepOK(rep, h) /\
               tv' = [op |-> "log_se3", rep |-> rep, h |-> h, hp |-> Principal(h), p |-> p, cell |-> cell,
                      u |-> GenU(Principal(h), p)]
         \/ /\ (h[1] # 0 \/ nOf(h) = 0) /\ cell # "nearpole"
-           /\ \E rep \in Reps2, p \in Rhos, p2 \in {<<1,1,1>>} : RepOK(rep, h) /\
+           /\ \E rep \in RepsSE(h), p \in Rhos, p2 \in {<<1,1,1>>} : RepOK(rep, h) /\
               tv' = [op |-> "log_se23", rep |-> rep, h |-> h, hp |-> Principal(h), p |-> p, p2 |-> p2, cell |-> cell,
                      u |-> GenU(Principal(h), p), u2 |-> GenU(Principal(h), p2)]
   \/ /\ tv.op = "seedc"
